@@ -248,6 +248,7 @@ def _check(rep, tier):
         if usable:
             numeric_gauge(rep, rng, thorough, wd, skipped, state)
             tetra_point_degeneracy(rep, rng, thorough, wd, skipped, state)
+            kramers_fourfold(rep, rng, thorough, skipped, state)
     finally:
         import shutil
         shutil.rmtree(wd, ignore_errors=True)
@@ -375,7 +376,7 @@ def gauge_usable(rep, skipped):
 def part_gauge_blocks(rep, rng, thorough, recs, skipped, usable):
     nb, emax = (6, 3) if thorough else (5, 3)
     base = f"SPECIFICATION Spec\nCONSTANTS\n  NB = {nb}\n  EMAX = {emax}\n  THS = {{0, 1, 2}}\n  RequirePrecond = %s\n  TETRA = FALSE\n  Clip = TRUE\n" + \
-        "".join(f"INVARIANT {i}\n" for i in ("Multiplets", "TraceBlocksContain", "SeaWhole", "MixSymmetric")) + "CHECK_DEADLOCK FALSE\n"
+        "".join(f"INVARIANT {i}\n" for i in ("Multiplets", "TraceBlocksContain", "KramersTraceBlocksContain", "SeaWhole", "MixSymmetric")) + "CHECK_DEADLOCK FALSE\n"
     st = ftable.enumerate_states("MC_GaugeBlocks.tla", base % "TRUE", "c04_gauge" + TAG, workers=4)
     ftable.spec_violation(rep, st, "c04_gauge")
     rep.add_tlc("c04_gauge", st)
@@ -383,6 +384,11 @@ def part_gauge_blocks(rep, rng, thorough, recs, skipped, usable):
     if not s0.get("violation") or s0["violation"][1] != "TraceBlocksContain":
         raise MachineryError("sensitivity self-test failed: without GaugeWithinTrace the containment must be violated")
     rep.part("c04_gauge_noprecond", sensitivity_violation=s0["violation"][1])
+    s1 = tlc.run_tlc("MC_GaugeBlocks.tla", "SPECIFICATION Spec\nCONSTANTS\n  NB = 4\n  EMAX = 1\n  THS = {0}\n  RequirePrecond = TRUE\n  TETRA = FALSE\n  Clip = TRUE\n"
+                     "INVARIANT StrictPairsContain\nCHECK_DEADLOCK FALSE\n", "c04_gauge_strict_pairs" + TAG, workers=2, timeout=900)
+    if not s1.get("violation") or s1["violation"][1] != "StrictPairsContain":
+        raise MachineryError(f"sensitivity self-test failed: strict consecutive pairs must cut a four-fold level ({s1.get('violation')}, {s1.get('error')})")
+    rep.part("c04_gauge_strict_pairs", sensitivity_violation=s1["violation"][1])
     inputs = {}
     for s in ftable.dump_states(st):
         inputs.setdefault((tuple(s["E"]), s["thg"]), s)
@@ -510,7 +516,7 @@ def tetra_blocks(rep, rng, thorough, recs, skipped):
     states = sorted(ftable.dump_states(st), key=lambda s: (repr(s["E"]), s["thg"], s["thc"], repr(s["tet"])))
     nsel = 1500 if thorough else 400
     sel = states if len(states) <= nsel else rng.sample(states, nsel)
-    ncut = nrep = 0
+    ncut = nrep = ndiff = 0
     for s in sel:
         t = s["tet"]
         E2 = [2 * e for e in s["E"]]
@@ -527,11 +533,17 @@ def tetra_blocks(rep, rng, thorough, recs, skipped):
             continue
         nrep += 1
         rep.case(("tetra", tuple(E2), tuple(t["lo"]), tuple(t["hi"]), s["thc"], t["ef0"], t["ef1"]))
-        if got != exp:
-            rep.violation("TetraWeights.weights_all_band_groups:traced_blocks", dict(info, expected=exp, got=got, multiplets_of_the_random_gauge=[list(g) for g in s["rg"]]))
+        # how the traced bands are cut into blocks is free; required: the same bands, none twice, no multiplet of the random gauge cut
+        bands = [n for a, b in got for n in range(a, b)]
+        cut = [[list(t_), list(g)] for t_ in got for g in s["rg"] if any(t_[0] <= n < t_[1] for n in range(g[0], g[1])) and not all(t_[0] <= n < t_[1] for n in range(g[0], g[1]))]
+        if cut or len(set(bands)) != len(bands) or set(bands) != {n for a, b in exp for n in range(a, b)}:
+            rep.violation("TetraWeights.weights_all_band_groups:traced_blocks", dict(info, expected=exp, got=got, multiplets_of_the_random_gauge=[list(g) for g in s["rg"]],
+                                                                                    blocks_cutting_a_multiplet=cut))
+        elif got != exp:
+            ndiff += 1
     if nrep and ncut == 0:
         raise MachineryError("vacuous: no tetrahedron input with a multiplet split in the corners around the lowest Fermi level")
-    rep.part("replay_tetra", states_enumerated=len(states), replayed=nrep, with_multiplet_split_in_corners=ncut)
+    rep.part("replay_tetra", states_enumerated=len(states), replayed=nrep, with_multiplet_split_in_corners=ncut, same_bands_other_blocks_than_the_model=ndiff)
     # code -> spec
     if nrep:
         for _ in range(300 if thorough else 80):
@@ -754,7 +766,7 @@ def spin_copies_system(rng, nw=3, dim=2):
     return m, s, [(2 * j, 2 * j + 2) for j in range(nw)]
 
 
-def point_degenerate_system(rng, nw0=2):
+def point_degenerate_system(rng, nw0=2, copies=1):
     """H(k) = H0(k) (x) 1_2 + sum_a sin(2 pi k_a) M_a (dyadic entries): every level is exactly two-fold degenerate at the eight
     time-reversal invariant momenta (which belong to a 4x4x4 grid) and split everywhere else, in particular in the corners of the
     k-cells around them.  Random Hermitian external-term matrices.  -> (system, Hk function)"""
@@ -762,6 +774,8 @@ def point_degenerate_system(rng, nw0=2):
     m = km.build(rng.randrange(1 << 30), nw=nw0, dim=3, keys=("Ham",))
     big = km.build(rng.randrange(1 << 30), nw=2 * nw0, dim=3, keys=("Ham", "AA", "BB", "CC", "FF", "SS"), centres="zero")
     s = big.system()
+    if copies == 2:
+        s2 = km.build(rng.randrange(1 << 30), nw=4 * nw0, dim=3, keys=("Ham", "AA", "BB", "CC", "FF", "SS"), centres="zero").system()
     n = 2 * nw0
     H = np.zeros((s.rvec.nRvec, n, n), dtype=complex)
     for R, M in m.mats["Ham"].items():
@@ -778,6 +792,12 @@ def point_degenerate_system(rng, nw0=2):
         H[s.rvec.iR(tuple(R))] += Ma / 2j
         R[a] = -1
         H[s.rvec.iR(tuple(R))] += -Ma / 2j
+    if copies == 2:             # two interlaced copies: pairs at every k, four-fold levels at the TRIMs
+        H2 = np.zeros((s2.rvec.nRvec, 2 * n, 2 * n), dtype=complex)
+        for R in [tuple(int(x) for x in r) for r in np.array(s.rvec.iRvec)]:
+            H2[s2.rvec.iR(R), ::2, ::2] = H[s.rvec.iR(R)]
+            H2[s2.rvec.iR(R), 1::2, 1::2] = H[s.rvec.iR(R)]
+        s, H = s2, H2
     s.set_R_mat("Ham", H, reset=True)
     iRvec = np.array(s.rvec.iRvec)
 
@@ -838,6 +858,50 @@ def tetra_point_degeneracy(rep, rng, thorough, wd, skipped, state):
     if ndone == 0:
         raise MachineryError("no model with a suitable point degeneracy found")
     rep.part("numeric_only", tetra_point_degeneracy_runs=ndone, tetra_point_degeneracy_max_rel_dev=worst)
+
+
+def kramers_fourfold(rep, rng, thorough, skipped, state):
+    """tabulators created with degen_Kramers=True on a model whose levels are pairs at every k and four-fold at the TRIMs:
+    evaluate_k with random_gauge True / False at two TRIMs and at a generic point"""
+    import wannierberri as wb
+    from wannierberri import calculators as calc
+    worst = 0.0
+    n = 0
+    for _ in range(2 if thorough else 1):
+        s, Hk, meta = point_degenerate_system(rng, copies=2)
+        for k in ([0.0, 0.0, 0.0], [0.5, 0.0, 0.5], [0.171875, 0.296875, 0.40625]):
+            E = np.linalg.eigvalsh(Hk(k))
+            gaps = np.diff(E)
+            if np.any((gaps > 1e-6) & (gaps < MINGAP)):
+                continue
+            info = dict(meta, k=k, degen_Kramers=True, level_multiplicities=[int(x) for x in np.diff(np.concatenate([[0], np.where(gaps > 1e-6)[0] + 1, [len(E)]]))])
+
+            def calcs():
+                kw = dict(degen_Kramers=True)
+                return {"velocity": calc.tabulate.Velocity(**kw), "berry": calc.tabulate.BerryCurvature(**kw),
+                        "berry_internal": calc.tabulate.BerryCurvature(kwargs_formula={"external_terms": False}, **kw),
+                        "spin": calc.tabulate.Spin(**kw), "morb": calc.tabulate.OrbitalMoment(**kw)}
+            res = []
+            try:
+                for rg in (False, True):
+                    np.random.seed(rng.randrange(1 << 30))
+                    with quiet():
+                        x = wb.evaluate_k(s, k=k, quantities=[], calculators=calcs(), return_single_as_dict=True, parameters_K={"random_gauge": rg})
+                    res.append({q: _arr(v) for q, v in x.items()})
+            except Exception as ex:  # noqa
+                report_raise(rep, skipped, ex, "random_gauge:evaluate_k:degen_Kramers", info)
+                continue
+            for q in res[0]:
+                scale = max(1.0, float(np.abs(res[0][q]).max()))
+                dev = float(np.abs(res[0][q] - res[1][q]).max())
+                worst = max(worst, dev / scale)
+                n += 1
+                rep.case(("gauge_kramers", q, meta["seed_H0"], tuple(k)), nontrivial=np.abs(res[0][q]).max() > 1e-6)
+                if dev > TOL * scale:
+                    rep.violation(f"random_gauge:degen_Kramers:{q}", dict(info, fixed_gauge=res[0][q].tolist(), random_gauge=res[1][q].tolist(), deviation=dev))
+    if n == 0:
+        raise MachineryError("vacuous: no degen_Kramers comparison made")
+    rep.part("numeric_only", degen_Kramers_cases=n, degen_Kramers_max_rel_dev=worst)
 
 
 def multiplet_groups(nb, blocks):
